@@ -8,6 +8,11 @@ package main
 //                                          + payload exactly as expected on the wire, checksum field zero
 //   buf:reuse | buf:dirty,<byte hex>,<n>   the following emit ops of the case share ONE SerializeBuffer (as callers of
 //                                          SerializeLayers do); dirty: first filled with <byte> by PrependBytes(n)+AppendBytes(n), then Clear
+//   oemit:... / over:...                   as emit / ver, but the network-layer object and the transport-layer objects
+//                                          live for the whole case: fields and addresses are overwritten in place and
+//                                          SetNetworkLayerForChecksum is called only when an object is created
+//   conc:<workers>,<ms>,<seed>             <workers> goroutines each verify (3 of 4) or serialize (1 of 4) their own packet
+//                                          in a loop for at least <ms> ms; every result is compared with the reference
 //   ver:<L>,<P>,<src>,<dst>,<bytes>        decode <bytes> as layer L, attach the network layer, VerifyChecksum
 //   flip:...,<bytes>,<bit>                 the same after flipping one bit (byte bit/8, mask 1<<(bit%8))
 //   flips:...,<bytes>,<b1>/<b2>/...        several single-bit flips of the same packet
@@ -20,8 +25,12 @@ import (
 	"encoding/hex"
 	"fmt"
 	"math/rand"
+	"reflect"
 	"strconv"
 	"strings"
+	"sync"
+	"sync/atomic"
+	"time"
 
 	"github.com/gopacket/gopacket"
 	"github.com/gopacket/gopacket/layers"
@@ -656,6 +665,68 @@ func (c08) Gen(rng *rand.Rand, tier string) []Case {
 			}
 		}
 	}
+	// the same network-layer and transport-layer OBJECTS used for several packets: addresses, ports and payload are
+	// overwritten in place, SetNetworkLayerForChecksum is not called again (as with DecodingLayerParser / a sender loop)
+	pktOp := func(name, l, pk string, plen, tg int, stored bool) string {
+		src, dst := c08addr(rng, pk)
+		if len(src) > 0 { // never all-equal addresses: a stale address sum must show
+			rng.Read(src)
+			rng.Read(dst)
+		}
+		bs := c08build(rng, l, pk, plen)
+		hl := c08hdrLen(l, bs)
+		cov := bs
+		if l == "ip4" {
+			cov = bs[:hl]
+		}
+		if tg >= 0 && c08fieldOff(l, bs) >= 0 {
+			c08solve(l, pk, src, dst, cov, c08solvePos(l, bs, hl), uint16(tg))
+		}
+		if stored { // for verification: the reference checksum in place
+			if off := c08fieldOff(l, bs); off >= 0 && !(l == "gre" && bs[0]&0x80 == 0) {
+				binary.BigEndian.PutUint16(bs[off:], c08expected(l, c08wideSum(l, pk, src, dst, cov)))
+			}
+		} else if l == "ip4" {
+			bs = bs[:hl]
+		}
+		return c08op(name, l, pk, src, dst, bs, "")
+	}
+	nobj := 5
+	if tier == "thorough" {
+		nobj = 30
+	}
+	for r := 0; r < nobj; r++ {
+		for _, l := range c08layers {
+			for _, pk := range c08pseudos(l) {
+				tg := targets[r%len(targets)]
+				ops := []string{
+					pktOp("oemit", l, pk, rng.Intn(100), -1, false),
+					pktOp("oemit", l, pk, rng.Intn(100), tg, false),
+					pktOp("over", l, pk, rng.Intn(100), -1, true),
+					pktOp("over", l, pk, rng.Intn(100), tg, true),
+					pktOp("oemit", l, pk, rng.Intn(1200), -1, false),
+					pktOp("over", l, pk, rng.Intn(1200), -1, true),
+				}
+				if r%2 == 1 { // also through one reused buffer
+					ops = append([]string{"buf:reuse"}, ops...)
+				}
+				if c08usesPseudo(l) { // the other address family in between: its own objects
+					other := "4"
+					if pk == "4" {
+						other = "6"
+					}
+					ops = append(ops, pktOp("oemit", l, other, rng.Intn(60), -1, false), pktOp("oemit", l, pk, rng.Intn(60), -1, false), pktOp("over", l, pk, rng.Intn(60), -1, true))
+				}
+				out = append(out, Case{Prop: "C08", Ops: ops})
+			}
+		}
+	}
+	// concurrency: goroutines verifying / serializing their own packets; only results are judged
+	if tier == "thorough" {
+		out = append(out, Case{Prop: "C08", Ops: []string{fmt.Sprintf("conc:64,4000,%d", rng.Int63n(1<<30))}}, Case{Prop: "C08", Ops: []string{fmt.Sprintf("conc:16,2000,%d", rng.Int63n(1<<30))}})
+	} else {
+		out = append(out, Case{Prop: "C08", Ops: []string{fmt.Sprintf("conc:48,700,%d", rng.Int63n(1<<30))}})
+	}
 	// GRE flag combinations with non-zero field values, fresh and dirty buffers:
 	// checksum+ack, checksum+routing, checksum+routing+ack, key+seq, checksum+key+seq+ack, all
 	for _, fc := range [][2]byte{{0x80, 0x80}, {0xc0, 0}, {0xc0, 0x80}, {0x30, 0}, {0xb0, 0x80}, {0xf8, 0x80}, {0x88, 0}, {0x40, 0x80}} {
@@ -835,8 +906,52 @@ func (v c08vr) short() string {
 	return "p"
 }
 
+// layer objects that live across the ops of a case (oemit / over)
+type c08objs struct {
+	net map[string]gopacket.NetworkLayer      // by pseudo-header kind
+	ser map[string]gopacket.SerializableLayer // by layer+kind: object serialized again and again
+	dec map[string]c08csumLayer               // by layer+kind: object decoded into again and again
+}
+
+func newC08objs() *c08objs {
+	return &c08objs{net: map[string]gopacket.NetworkLayer{}, ser: map[string]gopacket.SerializableLayer{}, dec: map[string]c08csumLayer{}}
+}
+
+// the case's network-layer object of that kind, with the addresses overwritten in place
+func (o *c08objs) netLayer(pk string, src, dst []byte, proto byte) gopacket.NetworkLayer {
+	nl, ok := o.net[pk]
+	if !ok {
+		nl = c08netLayer(pk, src, dst, proto)
+		o.net[pk] = nl
+		return nl
+	}
+	switch v := nl.(type) {
+	case *layers.IPv4:
+		v.SrcIP, v.DstIP, v.Protocol = append([]byte(nil), src...), append([]byte(nil), dst...), layers.IPProtocol(proto)
+	case *layers.IPv6:
+		v.SrcIP, v.DstIP, v.NextHeader = append([]byte(nil), src...), append([]byte(nil), dst...), layers.IPProtocol(proto)
+		v.HopByHop = nil
+	}
+	return nl
+}
+
+// copy the exported fields of src into dst (same concrete type), leaving unexported state of dst alone
+func c08assignExported(dst, src interface{}) {
+	dv, sv := reflect.ValueOf(dst).Elem(), reflect.ValueOf(src).Elem()
+	for i := 0; i < dv.NumField(); i++ {
+		if f := dv.Field(i); f.CanSet() {
+			f.Set(sv.Field(i))
+		}
+	}
+}
+
 // direct path: the layer's own DecodeFromBytes on a private copy, network layer attached, VerifyChecksum
 func c08verifyDirect(l, pk string, src, dst, data []byte) (v c08vr) {
+	return c08verifyDirectObj(l, pk, src, dst, data, nil)
+}
+
+// with po != nil the decoded-into object and the network-layer object are the case's long-lived ones
+func c08verifyDirectObj(l, pk string, src, dst, data []byte, po *c08objs) (v c08vr) {
 	defer func() {
 		if r := recover(); r != nil {
 			v = c08vr{cls: "panic"}
@@ -844,13 +959,29 @@ func c08verifyDirect(l, pk string, src, dst, data []byte) (v c08vr) {
 	}()
 	buf := append([]byte(nil), data...)
 	ly := c08newLayer(l)
+	fresh := true
+	if po != nil {
+		if old, ok := po.dec[l+pk]; ok {
+			ly, fresh = old, false
+		} else {
+			po.dec[l+pk] = ly
+		}
+	}
 	if err := ly.DecodeFromBytes(buf, gopacket.NilDecodeFeedback); err != nil {
 		return c08vr{cls: "err"}
 	}
 	region := c08region(l, ly)
 	if sn, ok := ly.(c08setNet); ok && pk != "n" {
-		if err := sn.SetNetworkLayerForChecksum(c08netLayer(pk, src, dst, c08proto(l))); err != nil {
-			return c08vr{cls: "err"}
+		var nl gopacket.NetworkLayer
+		if po != nil {
+			nl = po.netLayer(pk, src, dst, c08proto(l)) // addresses overwritten in the attached object
+		} else {
+			nl = c08netLayer(pk, src, dst, c08proto(l))
+		}
+		if fresh {
+			if err := sn.SetNetworkLayerForChecksum(nl); err != nil {
+				return c08vr{cls: "err"}
+			}
 		}
 	}
 	err, res := ly.VerifyChecksum()
@@ -1144,7 +1275,7 @@ func c08layerFromBytes(l string, bs []byte) (gopacket.SerializableLayer, []byte)
 	return nil, nil
 }
 
-func (c08) runEmit(args []string, res *Result, tags map[string]bool, shared gopacket.SerializeBuffer) string {
+func (c08) runEmit(args []string, res *Result, tags map[string]bool, shared gopacket.SerializeBuffer, po *c08objs) string {
 	l, pk, src, dst, bs := c08parsePkt(args)
 	cls, csum, same := "ok", "none", 1
 	var out, lbytes []byte
@@ -1155,10 +1286,27 @@ func (c08) runEmit(args []string, res *Result, tags map[string]bool, shared gopa
 			}
 		}()
 		ly, payload := c08layerFromBytes(l, bs)
+		fresh := true
+		if po != nil {
+			tags["reused-layer-objects"] = true
+			if old, ok := po.ser[l+pk]; ok {
+				c08assignExported(old, ly) // same object, new field values
+				ly, fresh = old, false
+			} else {
+				po.ser[l+pk] = ly
+			}
+		}
 		var stack []gopacket.SerializableLayer
 		if c08usesPseudo(l) && pk != "n" {
-			nl := c08netLayer(pk, src, dst, c08proto(l))
-			ly.(c08setNet).SetNetworkLayerForChecksum(nl)
+			var nl gopacket.NetworkLayer
+			if po != nil {
+				nl = po.netLayer(pk, src, dst, c08proto(l))
+			} else {
+				nl = c08netLayer(pk, src, dst, c08proto(l))
+			}
+			if fresh {
+				ly.(c08setNet).SetNetworkLayerForChecksum(nl)
+			}
 			stack = append(stack, nl.(gopacket.SerializableLayer))
 		}
 		stack = append(stack, ly, gopacket.Payload(payload))
@@ -1296,6 +1444,7 @@ func (h c08) Run(c Case) Result {
 	var res Result
 	tags := map[string]bool{}
 	var shared gopacket.SerializeBuffer // non-nil after a buf: op
+	var objs *c08objs                   // long-lived layer objects of oemit / over
 	for _, op := range c.Ops {
 		name, arg, _ := strings.Cut(op, ":")
 		args := strings.Split(arg, ",")
@@ -1365,7 +1514,33 @@ func (h c08) Run(c Case) Result {
 			}
 			res.Obs = append(res.Obs, "buf=1")
 		case "emit":
-			res.Obs = append(res.Obs, h.runEmit(args, &res, tags, shared))
+			res.Obs = append(res.Obs, h.runEmit(args, &res, tags, shared, nil))
+		case "oemit":
+			if objs == nil {
+				objs = newC08objs()
+			}
+			res.Obs = append(res.Obs, h.runEmit(args, &res, tags, shared, objs))
+		case "over":
+			if objs == nil {
+				objs = newC08objs()
+			}
+			l, pk, src, dst, bs := c08parsePkt(args)
+			tags["reused-layer-objects"] = true
+			v := c08verifyDirectObj(l, pk, src, dst, bs, objs)
+			res.Oracle = append(res.Oracle, c08checkVerify(l, pk, src, dst, bs, v, "ver(reused objects)", tags)...)
+			res.Obs = append(res.Obs, v.obs())
+		case "conc":
+			w, _ := strconv.Atoi(args[0])
+			ms, _ := strconv.Atoi(args[1])
+			sd, _ := strconv.ParseInt(args[2], 10, 64)
+			fails := c08concurrent(w, ms, sd)
+			tags["concurrent"] = true
+			if len(fails) == 0 {
+				res.Obs = append(res.Obs, "conc=ok")
+			} else {
+				res.Obs = append(res.Obs, "conc=fail")
+				res.Oracle = append(res.Oracle, fails...)
+			}
 		case "ver":
 			l, pk, src, dst, bs := c08parsePkt(args)
 			v := h.runVerify(l, pk, src, dst, bs, "ver", &res, tags)
@@ -1420,4 +1595,130 @@ func (h c08) Run(c Case) Result {
 		res.Tags = append(res.Tags, t)
 	}
 	return res
+}
+
+// c08concurrent: every goroutine owns one packet.  Verifiers decode their packet once (after checking that the
+// library serialized it with the reference checksum) and call VerifyChecksum in a loop; serializers serialize
+// their packet in a loop into their own buffer and layer objects.  Nothing is shared between goroutines but the
+// library.  Only results are judged (no timing assumption): every verification must say Valid with the
+// reference as Correct, every serialization must carry the reference checksum.
+func c08concurrent(workers, ms int, seed int64) []string {
+	type job struct {
+		l, pk    string
+		src, dst []byte
+		bs       []byte // zeroed field
+		want     uint16
+		dec      c08csumLayer
+		ser      gopacket.SerializableLayer
+		stack    []gopacket.SerializableLayer
+	}
+	rng := rand.New(rand.NewSource(seed))
+	kinds := [][2]string{{"tcp", "4"}, {"udp", "6"}, {"icmp4", "n"}, {"icmp6", "6"}, {"gre", "n"}, {"tcp", "6"}, {"udp", "4"}, {"ip4", "n"}, {"icmp6", "4"}}
+	var fails []string
+	var mu sync.Mutex
+	report := func(s string) {
+		mu.Lock()
+		if len(fails) < 5 {
+			fails = append(fails, s)
+		}
+		mu.Unlock()
+	}
+	opts := gopacket.SerializeOptions{FixLengths: true, ComputeChecksums: true}
+	jobs := make([]*job, workers)
+	for w := range jobs {
+		k := kinds[w%len(kinds)]
+		j := &job{l: k[0], pk: k[1]}
+		j.src, j.dst = c08addr(rng, j.pk)
+		plen := 6000 + rng.Intn(20000) + w
+		if j.l == "ip4" {
+			plen = rng.Intn(200)
+		}
+		c08greForce, c08greForceAck = 0x80, 0
+		j.bs = c08build(rng, j.l, j.pk, plen)
+		c08greForce, c08greForceAck = 0, 0
+		if j.l == "ip4" {
+			j.bs = j.bs[:c08hdrLen("ip4", j.bs)]
+		}
+		j.want = c08expected(j.l, c08wideSum(j.l, j.pk, j.src, j.dst, j.bs))
+		ly, payload := c08layerFromBytes(j.l, j.bs)
+		if c08usesPseudo(j.l) {
+			nl := c08netLayer(j.pk, j.src, j.dst, c08proto(j.l))
+			ly.(c08setNet).SetNetworkLayerForChecksum(nl)
+			j.stack = append(j.stack, nl.(gopacket.SerializableLayer))
+		}
+		j.ser = ly
+		j.stack = append(j.stack, ly, gopacket.Payload(payload))
+		// the packet the verifier works on is the one the library serialized
+		buf := gopacket.NewSerializeBuffer()
+		if err := gopacket.SerializeLayers(buf, opts, j.stack...); err != nil {
+			return []string{fmt.Sprintf("C08:emit-reference\tconcurrent setup: %s/%s does not serialize: %v", j.l, j.pk, err)}
+		}
+		out := buf.Bytes()
+		lb := append([]byte(nil), out[len(out)-len(j.bs):]...)
+		if j.l == "ip4" {
+			lb = append([]byte(nil), out...)
+		}
+		off := c08fieldOff(j.l, j.bs)
+		if got := binary.BigEndian.Uint16(lb[off:]); got != j.want {
+			return []string{fmt.Sprintf("C08:emit-reference\tconcurrent setup (sequential): %s/%s len=%d emitted %#04x reference %#04x", j.l, j.pk, len(j.bs), got, j.want)}
+		}
+		j.dec = c08newLayer(j.l)
+		if err := j.dec.DecodeFromBytes(lb, gopacket.NilDecodeFeedback); err != nil {
+			return []string{fmt.Sprintf("C08:verify-accepts\tconcurrent setup: %s/%s does not decode: %v", j.l, j.pk, err)}
+		}
+		if sn, ok := j.dec.(c08setNet); ok {
+			sn.SetNetworkLayerForChecksum(c08netLayer(j.pk, j.src, j.dst, c08proto(j.l)))
+		}
+		jobs[w] = j
+	}
+	var stop int32
+	var calls int64
+	var wg sync.WaitGroup
+	deadline := time.Now().Add(time.Duration(ms) * time.Millisecond)
+	for w, j := range jobs {
+		wg.Add(1)
+		go func(w int, j *job) {
+			defer wg.Done()
+			defer func() {
+				if r := recover(); r != nil {
+					atomic.StoreInt32(&stop, 1)
+					report(fmt.Sprintf("C08:no-panic\tconcurrent worker %d (%s/%s) panicked: %v", w, j.l, j.pk, r))
+				}
+			}()
+			var buf gopacket.SerializeBuffer
+			if w%4 == 3 {
+				buf = gopacket.NewSerializeBuffer()
+			}
+			off := c08fieldOff(j.l, j.bs)
+			for n := 0; atomic.LoadInt32(&stop) == 0 && (n < 20 || time.Now().Before(deadline)); n++ {
+				atomic.AddInt64(&calls, 1)
+				if buf != nil { // serializer
+					if err := gopacket.SerializeLayers(buf, opts, j.stack...); err != nil {
+						atomic.StoreInt32(&stop, 1)
+						report(fmt.Sprintf("C08:emit-reference\tconcurrent worker %d: %s/%s serialization failed: %v", w, j.l, j.pk, err))
+						return
+					}
+					out := buf.Bytes()
+					lb := out[len(out)-len(j.bs):]
+					if j.l == "ip4" {
+						lb = out[:len(j.bs)]
+					}
+					if got := binary.BigEndian.Uint16(lb[off:]); got != j.want {
+						atomic.StoreInt32(&stop, 1)
+						report(fmt.Sprintf("C08:emit-reference\tconcurrent worker %d of %d: %s/%s len=%d emitted %#04x reference %#04x (its own buffer and layer objects)", w, len(jobs), j.l, j.pk, len(j.bs), got, j.want))
+						return
+					}
+					continue
+				}
+				err, r := j.dec.VerifyChecksum()
+				if err != nil || !r.Valid || r.Correct != uint32(j.want) || r.Actual != uint32(j.want) {
+					atomic.StoreInt32(&stop, 1)
+					report(fmt.Sprintf("C08:verify-accepts\tconcurrent worker %d of %d: untouched library-serialized %s/%s len=%d: err=%v Valid=%v Correct=%#04x Actual=%#04x reference %#04x", w, len(jobs), j.l, j.pk, len(j.bs), err, r.Valid, r.Correct, r.Actual, j.want))
+					return
+				}
+			}
+		}(w, j)
+	}
+	wg.Wait()
+	return fails
 }
